@@ -181,6 +181,38 @@ def body():
             chk.violation("accept:%s" % shp, "documented combination %s fails with %s: %s" % (label, type(exc).__name__, str(exc)[:200]), {"term": t})
         if n % 4001 == 0:
             chk.sample({"term": label, "verdict": ob["verdict"], "type": ob["type"], "den": ob["den"]})
+    # ---- life cycle of grid functions (GfLife.tla): representation changes and what each call returns, over call sequences
+    gl = common.run_tlc("GfLife", "GfLife.cfg", timeout=1800)
+    chk.add_tlc("GfLife exhaustive (depth 3, 3 slots)", gl)
+    if not gl.ok:
+        chk.violation("spec:GfLife:" + str(gl.violated), "TLC: GfLife violates %s" % gl.violated, {})
+    sim = common.run_tlc("GfLife", "GfLife_sim.cfg", simulate="num=%d" % (40 if chk.tier == "quick" else 600), depth=11, workers=1, extra=["-seed", str(7 + chk.seed)], timeout=1800)
+    from harness import replay_gflife as rgl
+
+    world = rgl.World(api)
+    seen_h = set()
+    nb = 0
+    for o in sim.obligations:
+        h = o["hist"]
+        key = repr([(e["call"], e["args"]) for e in h])
+        if key in seen_h:
+            continue
+        seen_h.add(key)
+        nb += 1
+        chk.count(("gflife", key), True)
+        chk.cov["obligations_replayed"] += 1
+
+        def gfail(step, call, detail, h=h):
+            calls = [(e["call"], e["args"]) for e in h[: step + 1]]
+            chk.violation("gflife:%s" % call, "grid-function life cycle: step %d (%s): %s; calls so far %s" % (step + 1, call, detail, calls), {"history": h})
+
+        try:
+            world.run(h, gfail)
+        except Exception as exc:
+            chk.violation("gflife:exception", "%s: %s while executing %s" % (type(exc).__name__, str(exc)[:160], [(e["call"], e["args"]) for e in h]), {"history": h})
+    chk.cov["tlc_runs"].append({"name": "GfLife simulation", "cmd": sim.cmd, "behaviours": len(sim.obligations), "distinct_replayed": nb, "wall_s": round(sim.wall, 1)})
+    if nb == 0:
+        raise common.MachineryError("no GfLife behaviour was generated")
     chk.cov["rule"] = "one obligation per expression tree (state of OpAlgebra); distinct by printed term; non-trivial = depth >= 1"
     chk.cov["verdicts"] = counts
     chk.cov["exhaustive"] = chk.tier == "quick"
